@@ -2560,4 +2560,310 @@ theorem selectF_inplace (n : Nat) : ∀ (keys : List Path) (strict : Bool) (t : 
             | ok srcF => simp
 
 
+/-! ### is_empty, duplicate-free views -/
+
+theorem isEmpty_go_iff (kids : Kids) (pre : Path) : isEmpty.go kids = true ↔ iterItems.go true true kids pre = [] := by
+  fun_induction isEmpty.go kids generalizing pre
+  · simp [iterItems.go]
+  · rename_i k v r ih2 ih1
+    cases v with
+    | leaf nt x => cases nt <;> simp [iterItems.go, Entry.isLeafFor]
+    | node sub =>
+      simp only at ih2
+      simp only [Bool.and_eq_true, iterItems.go, Entry.isLeafFor, Bool.not_true, Bool.false_or, Bool.false_eq_true,
+        if_false, List.nil_append, List.append_eq_nil_iff]
+      rw [ih2 (pre ++ [k]), ih1 pre]
+
+/-- `is_empty()` is true exactly when no tensor / non-tensor is bound anywhere below (empty nested tensordicts do not count) -/
+theorem isEmpty_iff (kids : Kids) (hw : WF (.node kids)) :
+    isEmpty (.node kids) = true ↔ ∀ p e, bound p e kids → e.isLeafFor true = false := by
+  simp only [isEmpty]
+  rw [isEmpty_go_iff kids []]
+  constructor
+  · intro h p e hb
+    cases hl : e.isLeafFor true with
+    | false => rfl
+    | true =>
+      have := (mem_leavesOf kids hw p e).mpr ⟨hb, hl⟩
+      simp only [leavesOf, iterItems] at this
+      rw [h] at this; simp at this
+  · intro h
+    cases hi : iterItems.go true true kids [] with
+    | nil => rfl
+    | cons a r =>
+      obtain ⟨p, e⟩ := a
+      have hm : (p, e) ∈ leavesOf (.node kids) := by simp [leavesOf, iterItems, hi]
+      obtain ⟨hb, hl⟩ := (mem_leavesOf kids hw p e).mp hm
+      rw [h p e hb] at hl; simp at hl
+
+
+
+theorem bound_head_mem {p : Path} {e : Entry} {kids : Kids} (h : bound p e kids) : ∃ k rest, p = k :: rest ∧ k ∈ kids.map (·.1) := by
+  obtain ⟨hp, hl⟩ := h
+  cases p with
+  | nil => exact absurd rfl hp
+  | cons k rest =>
+    refine ⟨k, rest, rfl, ?_⟩
+    rw [lookup_cons_node] at hl
+    cases hd : dget k kids with
+    | none => simp [hd] at hl
+    | some c => exact (dget_isSome_iff_mem k kids).mp (by simp [hd])
+
+/-- the nested key view lists no key twice (unique keys per node) -/
+theorem iterHelper_go_nodup (lo nt : Bool) (kids : Kids) (pre : Path) (hw : WF (.node kids)) :
+    (iterHelper.go lo nt kids pre).Nodup := by
+  fun_induction iterHelper.go lo nt kids pre
+  · simp
+  · rename_i k v r pre full ih2 ih1
+    have hr := ih1 hw.tail
+    have hfresh := hw.head_fresh
+    have hA : (match v with | .node sub => iterHelper.go lo nt sub full | .leaf .. => ([] : List Path)).Nodup := by
+      cases v with
+      | leaf nt' x => simp
+      | node sub => exact ih2 hw.head
+    -- what the three parts contain
+    have memA : ∀ q, q ∈ (match v with | .node sub => iterHelper.go lo nt sub full | .leaf .. => ([] : List Path)) →
+        ∃ p', p' ≠ [] ∧ q = pre ++ k :: p' := by
+      intro q hq
+      cases v with
+      | leaf nt' x => simp at hq
+      | node sub =>
+        obtain ⟨p', e, rfl, hb, _⟩ := (mem_iterHelper_go lo nt sub full q hw.head).mp hq
+        exact ⟨p', hb.1, by simp [full]⟩
+    have memC : ∀ q, q ∈ iterHelper.go lo nt r pre → ∃ k' rest, k' ≠ k ∧ q = pre ++ k' :: rest := by
+      intro q hq
+      obtain ⟨p, e, rfl, hb, _⟩ := (mem_iterHelper_go lo nt r pre q hw.tail).mp hq
+      obtain ⟨k', rest, rfl, hk'⟩ := bound_head_mem hb
+      refine ⟨k', rest, ?_, rfl⟩
+      intro e'; subst e'
+      exact (dget_none_iff k' r).mp hfresh hk'
+    refine List.nodup_append.mpr ⟨List.nodup_append.mpr ⟨hA, by split <;> simp, ?_⟩, hr, ?_⟩
+    · intro a ha b hb
+      split at hb
+      · simp at hb; subst hb
+        obtain ⟨p', hp', rfl⟩ := memA a ha
+        intro e; simp [full] at e; exact hp' e
+      · simp at hb
+    · intro a ha b hb
+      obtain ⟨k', rest, hne, rfl⟩ := memC b hb
+      simp only [List.mem_append] at ha
+      rcases ha with ha | ha
+      · obtain ⟨p', _, rfl⟩ := memA a ha
+        intro e; simp at e; exact hne e.1.symm
+      · split at ha
+        · simp at ha; subst ha
+          intro e; simp [full] at e; exact hne e.1.symm
+        · simp at ha
+
+
+/-! ### flatten_keys in place -/
+
+/-- leaves-only: the key view and the item view run through the leaves in the same order -/
+theorem iterHelper_eq_items_leaves (kids : Kids) (pre : Path) :
+    iterHelper.go true true kids pre = (iterItems.go true true kids pre).map (·.1) := by
+  fun_induction iterHelper.go true true kids pre
+  · simp [iterItems.go]
+  · rename_i k v r pre full ih2 ih1
+    cases v with
+    | leaf nt x => cases nt <;> simp [iterItems.go, Entry.isLeafFor, ih1, full]
+    | node sub =>
+      simp only at ih2
+      simp [iterItems.go, Entry.isLeafFor, ih1, ih2, full]
+
+theorem keysView_leaves (kids : Kids) :
+    keysView ⟨true, true, false, true⟩ (.node kids) = (leavesOf (.node kids)).map (·.1) := by
+  simp [keysView, iterHelper, leavesOf, iterItems, iterHelper_eq_items_leaves]
+
+/-- generic `set()` lemmas -/
+theorem mem_dedup' {α} [BEq α] [LawfulBEq α] (l : List α) (x : α) : x ∈ dedup l ↔ x ∈ l := by
+  induction l with
+  | nil => simp [dedup]
+  | cons a r ih =>
+    simp only [dedup]
+    split
+    · rename_i h
+      have ha : a ∈ dedup r := by simpa using h
+      rw [ih, List.mem_cons]
+      constructor
+      · intro h'; exact Or.inr h'
+      · intro h'
+        rcases h' with rfl | h'
+        · exact ih.mp ha
+        · exact h'
+    · simp [ih]
+
+theorem dedup_nodup_eq {α} [BEq α] [LawfulBEq α] (l : List α) (h : l.Nodup) : dedup l = l := by
+  induction l with
+  | nil => simp [dedup]
+  | cons a r ih =>
+    simp only [List.nodup_cons] at h
+    simp only [dedup]
+    have : (dedup r).contains a = false := by
+      cases hc : (dedup r).contains a with
+      | false => rfl
+      | true => exact absurd ((mem_dedup' r a).mp (by simpa using hc)) h.1
+    rw [ih h.2] at this ⊢
+    simp [h.1]
+
+/-- a path through a leaf is bound to nothing -/
+theorem lookup_below_leaf (p q : Path) (t : Entry) (nt : Bool) (v : Nat) (hq : q ≠ [])
+    (h : lookup p t = some (.leaf nt v)) : lookup (p ++ q) t = none := by
+  induction p generalizing t with
+  | nil =>
+    simp [lookup] at h; subst h
+    cases q with
+    | nil => exact absurd rfl hq
+    | cons a b => simp [lookup]
+  | cons k rest ih =>
+    cases t with
+    | leaf nt' v' => simp [lookup] at h
+    | node kids =>
+      rw [lookup_cons_node] at h
+      simp only [List.cons_append, lookup_cons_node]
+      cases hd : dget k kids with
+      | none => simp [hd] at h
+      | some c => simp only [hd, Option.bind] at h ⊢; exact ih c h
+
+/-- two different leaf paths are never prefixes of one another -/
+theorem leaf_paths_unrelated (p q : Path) (t : Entry) (e1 e2 : Entry) (h1 : lookup p t = some e1) (h2 : lookup q t = some e2)
+    (hl1 : e1.isLeafFor true = true) (hne : p ≠ q) : isPrefix p q = false := by
+  cases hp : isPrefix p q with
+  | false => rfl
+  | true =>
+    obtain ⟨ext, rfl⟩ := (isPrefix_iff_append p q).mp hp
+    have hext : ext ≠ [] := by intro e; subst e; simp at hne
+    cases e1 with
+    | node s => simp [Entry.isLeafFor] at hl1
+    | leaf nt v =>
+      rw [lookup_below_leaf p ext t nt v hext h1] at h2; simp at h2
+
+
+
+theorem popT_leaf (p : Path) (t t1 e : Entry) (hp : p ≠ []) (hl : lookup p t = some e) (hr : remove p t = some t1) :
+    popT p false t = (t1, .val (some e)) := by
+  cases p with
+  | nil => exact absurd rfl hp
+  | cons k r =>
+    rw [popT_cons, getTuple_eq (k :: r) t (by simp) (throughLeaf_false_of_lookup hl), hl]
+    simp [delTuple_of_remove hr]
+
+/-- `[self.pop(leaf) for leaf in all_leaves]`: every leaf comes out with its value, nothing else is touched -/
+theorem popAll_spec (L : List Path) (t : Entry) (acc : List Entry) (hw : WF t)
+    (hL : ∀ p ∈ L, p ≠ [] ∧ ∃ e, lookup p t = some e ∧ e.isLeafFor true = true) (hn : L.Nodup) :
+    popAll L t acc = (removeAll L t, .ok (acc.reverse ++ L.map (fun p => (lookup p t).getD (.node [])))) := by
+  induction L generalizing t acc with
+  | nil => simp [popAll, removeAll]
+  | cons p r ih =>
+    obtain ⟨hp, e, hl, hleaf⟩ := hL p (by simp)
+    obtain ⟨t1, hr⟩ := remove_some_of_lookup hp hl
+    simp only [List.nodup_cons] at hn
+    simp only [popAll, popT_leaf p t t1 e hp hl hr]
+    -- the other leaves are untouched by the removal of `p`
+    have hother : ∀ q ∈ r, lookup q t1 = lookup q t := by
+      intro q hq
+      obtain ⟨_, e2, hl2, hleaf2⟩ := hL q (by simp [hq])
+      have hne : p ≠ q := fun e => hn.1 (e ▸ hq)
+      exact lookup_remove_other p t t1 hr q (leaf_paths_unrelated p q t e e2 hl hl2 hleaf hne)
+        (leaf_paths_unrelated q p t e2 e hl2 hl hleaf2 (fun e => hne e.symm))
+    have hL1 : ∀ q ∈ r, q ≠ [] ∧ ∃ e, lookup q t1 = some e ∧ e.isLeafFor true = true := by
+      intro q hq
+      obtain ⟨h1, e2, hl2, hleaf2⟩ := hL q (by simp [hq])
+      exact ⟨h1, e2, by rw [hother q hq]; exact hl2, hleaf2⟩
+    rw [ih t1 (e :: acc) (wf_remove p t t1 hw hr) hL1 hn.2]
+    simp only [removeAll, List.foldl_cons, hr, Option.getD_some, List.reverse_cons, List.map_cons, hl,
+      List.append_assoc, List.singleton_append]
+    have hmap : List.map (fun p => (lookup p t1).getD (Entry.node [])) r = List.map (fun p => (lookup p t).getD (Entry.node [])) r :=
+      List.map_congr_left (fun q hq => by rw [hother q hq])
+    rw [hmap]
+
+theorem removeAll_node (L : List Path) (kids : Kids) (hw : WF (.node kids)) :
+    ∃ kids', removeAll L (.node kids) = .node kids' ∧ WF (.node kids') := by
+  induction L generalizing kids with
+  | nil => exact ⟨kids, rfl, hw⟩
+  | cons p r ih =>
+    simp only [removeAll, List.foldl_cons]
+    cases hr : remove p (.node kids) with
+    | none => simpa [removeAll] using ih kids hw
+    | some t1 =>
+      obtain ⟨_, k1, _, rfl⟩ := remove_shape hr
+      simpa [removeAll] using ih k1 (wf_remove p _ _ hw hr)
+
+
+
+theorem sx_all_roots (kids : Kids) : sx (kids.map (fun kv => [kv.1])) kids = [] := by
+  rw [sx_eq_filter_map]
+  have : kids.filter (fun kv => !(kids.map (fun kv => [kv.1])).contains [kv.1]) = [] := by
+    apply List.filter_eq_nil_iff.mpr
+    intro kv hkv
+    simp only [Bool.not_eq_true', Bool.not_eq_false, List.contains_eq_mem, decide_eq_true_eq, List.mem_map]
+    exact ⟨kv, hkv, rfl⟩
+  rw [this]; rfl
+
+/-- `flatten_keys(sep, inplace=True)` (repaired: pop every leaf, drop what is left, write the flat names) computes
+exactly what the out-of-place variant returns, or refuses on a name clash without touching anything -/
+theorem flattenIn_eq (sep : String) (kids : Kids) (hw : WF (.node kids)) :
+    flattenIn sep (.node kids) =
+      if (flatNames sep (.node kids)).Nodup then (.node (flatKids sep (.node kids)), .ok) else (.node kids, .err .key) := by
+  have hLP := keysView_leaves kids
+  have hnd : (keysView ⟨true, true, false, true⟩ (.node kids)).Nodup := by
+    have h : (iterHelper true true (.node kids) []).Nodup := by simp only [iterHelper]; exact iterHelper_go_nodup true true kids [] hw
+    simpa [keysView] using h
+  have hflat : (keysView ⟨true, true, false, true⟩ (.node kids)).map (joinWith sep) = flatNames sep (.node kids) := by
+    rw [hLP]; simp [flatNames, List.map_map]
+  unfold flattenIn
+  simp only []
+  rw [hflat, dedup_nodup_eq _ hnd]
+  have hlen : (keysView ⟨true, true, false, true⟩ (.node kids)).length = (flatNames sep (.node kids)).length := by
+    rw [← hflat]; simp
+  rw [hlen]
+  by_cases hn : (flatNames sep (.node kids)).Nodup
+  · have hlt : ¬ (dedup (flatNames sep (.node kids))).length < (flatNames sep (.node kids)).length := by
+      rw [dedup_lt_iff]; simpa using hn
+    rw [if_neg hlt, if_pos hn]
+    -- the pops
+    have hL : ∀ p ∈ keysView ⟨true, true, false, true⟩ (.node kids), p ≠ [] ∧ ∃ e, lookup p (.node kids) = some e ∧ e.isLeafFor true = true := by
+      intro p hp
+      rw [hLP] at hp
+      obtain ⟨⟨p', e⟩, hm, rfl⟩ := List.mem_map.mp hp
+      obtain ⟨hb, hl⟩ := (mem_leavesOf kids hw p' e).mp hm
+      exact ⟨hb.1, e, hb.2, hl⟩
+    rw [popAll_spec _ _ [] hw hL hnd]
+    obtain ⟨k1, hk1, hw1⟩ := removeAll_node (keysView ⟨true, true, false, true⟩ (.node kids)) kids hw
+    simp only [hk1, List.reverse_nil, List.nil_append]
+    -- exclude every remaining root key
+    have hex := excludeT_refines ((rootKeys (.node k1)).map ([·])) true k1 hw1 (by intro p hp; simp at hp; obtain ⟨_, _, rfl⟩ := hp; simp)
+    rw [hex, specExclude_eq_sx _ k1 hw1 (by intro p hp; simp at hp; obtain ⟨_, _, rfl⟩ := hp; simp)]
+    have hroots : (rootKeys (.node k1)).map ([·]) = k1.map (fun kv => [kv.1]) := by simp [rootKeys, List.map_map]
+    rw [hroots, sx_all_roots]
+    simp only []
+    -- the values popped are the leaves' values, in order
+    have hvals : (keysView ⟨true, true, false, true⟩ (.node kids)).map (fun p => (lookup p (.node kids)).getD (.node []))
+        = (leavesOf (.node kids)).map (·.2) := by
+      rw [hLP, List.map_map]
+      apply List.map_congr_left
+      intro pe hm
+      obtain ⟨p', e⟩ := pe
+      have := ((mem_leavesOf kids hw p' e).mp hm).1.2
+      simp [this]
+    rw [hvals, zip_flat]
+    have := dictBuild_nodup (flatKids sep (.node kids)) (by rw [flatKids_keys]; exact hn)
+    simp only [dictBuild] at this
+    simp only [if_true, this]
+  · have hlt : (dedup (flatNames sep (.node kids))).length < (flatNames sep (.node kids)).length := by
+      rw [dedup_lt_iff]; exact hn
+    rw [if_pos hlt, if_neg hn]
+
+
+theorem wf_flatKids (sep : String) (kids : Kids) (hw : WF (.node kids)) (hn : (flatNames sep (.node kids)).Nodup) :
+    WF (.node (flatKids sep (.node kids))) := by
+  refine WF.node _ (by rw [flatKids_keys]; exact hn) ?_
+  intro k v hm
+  simp only [flatKids, List.mem_map] at hm
+  obtain ⟨⟨p, e⟩, hme, heq⟩ := hm
+  simp at heq; obtain ⟨_, rfl⟩ := heq
+  have := ((mem_leavesOf kids hw p e).mp hme).2
+  cases e with
+  | leaf nt x => exact WF.leaf _ _
+  | node s => simp [Entry.isLeafFor] at this
+
 end TdVerif.C04
